@@ -34,7 +34,7 @@ K222 = FLAGS.index((2, 2, 2))
 K200 = FLAGS.index((2, 0, 0))
 FIXED_H = [(1, 1, 1), (2, 2, 0), (0, 0, 4), (1, -1, 3), (3, 1, 1), (1, 0, 0), (0, 1, 0), (0, 0, 1), (6, 6, 6), (-6, 5, -4),
            (0, -2, 1), (4, 0, -4)]
-DREL = [(1.0, 1.0), (0.5, 0.5), (0.8, 1.5), (1.0, 0.5), (0.5, 1.0), (0.7, 0.0), (0.5, 1.5), (1.0, 1.5)]
+DREL = [(1.0, 1.0), (0.5, 0.5), (0.8, 1.5), (1.25, 0.5), (0.5, 1.0), (0.7, 0.0), (10.0, 1.5), (1.0, 1.5), (1e-3, 1.0)]     # Debye factors above 1 are legal (only <= 0 is rejected)
 NODATA_Z = [99, 100, 110, 119]       # inside the library's Z range, but without form-factor data (observed, see probe below)
 
 
@@ -644,6 +644,8 @@ def gen_cell(rng, k, goodZ, nodata):
                 ang[0] = ang[2] = 90.0
             elif kind == 5:
                 ang[:] = 90.0
+                # ... and angles that are NEARLY right (a snapped cosine shows only here)
+                ang[(k // 35) % 3] = [90.00005, 89.99995, 90.0000001, 90.001, 89.9999][(k // 105) % 5]
             if kind in (1, 6):
                 abc[:] = abc[0]
         g = Geometry(abc[0], abc[1], abc[2], ang[0], ang[1], ang[2])
